@@ -154,7 +154,8 @@ def _set_dst_feature(grp, key):
     def fn(doc, form):
         if form == 'false' and key in NO_FALSE:
             return False
-        size = 64 if 'timestamp' in key else 32
+        # the total size field type is never narrower than the content size field type (default 64)
+        size = 64 if ('timestamp' in key or key == 'total-size-field-type') else 32
         doc['trace']['type']['data-stream-types']['d'].setdefault('$features', {}).setdefault(grp, {})[key] = \
             uint_form(form, size)
         return True
